@@ -184,3 +184,11 @@ Proof.
   destruct (match a with PD _ _ _ => _ | PDT _ _ _ _ _ _ _ => _ end) as [secs us].
   intro H. inversion H. apply fix_rd_wf.
 Qed.
+
+(* scalar multiplication by an exact rational p/q: normalised result; q = 1 is mul_int *)
+Theorem mul_q_laws : forall d p q k, wf (mul_q d p q) /\ mul_q d k 1 = mul_int d k.
+Proof.
+  intros d p q k. split; [apply mul_with_wf |].
+  unfold mul_q, mul_int. f_equal. destruct (rel d) as [y mo dd h mi s us]. unfold map_rel.
+  cbn [f_years f_months f_days f_hours f_minutes f_seconds f_us]. rewrite !Z.quot_1_r. reflexivity.
+Qed.
